@@ -37,3 +37,9 @@ func (group *Group) VerifFlushPushSessions() {
 		}
 	}
 }
+
+// VerifGroupOptionWithHook builds a GroupOption carrying a stream hook factory
+// (the field is unexported; lalserver sets it through WithOnHookSession).
+func VerifGroupOptionWithHook(f func(uniqueKey string, streamName string) ICustomizeHookSessionContext) GroupOption {
+	return GroupOption{onHookSession: f}
+}
